@@ -2,8 +2,10 @@
 Correspondence of real Machine / HierarchicalMachine instances (built through the public API,
 introspected after every step) with the Coq naming model (coq/Model/Naming.v), plus a direct
 oracle for the clauses of the property on the implementation's observations."""
+import asyncio
 import copy
 import enum
+import inspect
 
 from framework import REPO  # noqa: F401
 from flat import _import_transitions
@@ -12,7 +14,9 @@ PID = 'C11'
 KIND = 4
 IMPL = ('c11', 'impl')
 COUNTS = dict(quick=800, thorough=16000)
-RULE = ('cases = random flat machines (2 of 4 cases: model_attribute state/st/mode/my_state, auto_transitions on/off, '
+RULE = ('cases = random flat machines (2 of 4 cases; class Machine, or - 1 of 2 - AsyncMachine / AsyncGraphMachine with every '
+        'call awaited on one event loop per case; every may_<event>() and may_trigger(e) is called before the machine is '
+        'asked for get_triggers / get_transitions; model_attribute state/st/mode/my_state, auto_transitions on/off, '
         'model_override on/off, ignore_invalid_triggers on/off, string or Enum states, 0-4 states, 0-4 transitions with '
         'wildcard / list sources, reflexive / internal / named destinations and constant conditions, 0-2 models whose '
         'classes / instances already define 0-5 attributes named like helpers (is_*, to_*, may_*, event names, trigger) '
@@ -51,6 +55,7 @@ THEOREMS = ['C11_exactly_one_flat', 'C11_no_overwrite', 'C11_no_overwrite_refute
             'C11_hsm_get_triggers_refuted', 'C11_hsm_to_state']
 
 UNKNOWN = 'zz_unknown'
+GRAPH_ATTRS = ('get_graph',)     # what the diagram support of *GraphMachine adds to a model (C16)
 STATE_POOL = ['A', 'B', 'C', 'D', 'E', 'st_A', 'state_A', 'A_B']
 EVENT_POOL = ['go', 'run', 'stop', 'reset', 'next', 'e_A']
 ATTRS = ['state', 'state', 'state', 'st', 'mode', 'my_state']
@@ -178,7 +183,8 @@ class FlatGen(object):
     def case(self):
         r = self.r
         cfg = dict(attr=r.choice(ATTRS), auto=r.random() < 0.65, over=r.random() < 0.3, ignore=r.random() < 0.3,
-                   enum=r.random() < 0.35)
+                   enum=r.random() < 0.35,
+                   cls=r.choice(['Machine', 'Machine', 'Machine', 'AsyncMachine', 'AsyncMachine', 'AsyncGraphMachine']))
         all_states = r.sample(STATE_POOL, r.randint(2, 6))
         events = r.sample(EVENT_POOL, r.randint(1, 4))
         names = helperish_names(r, cfg, all_states, events)
@@ -212,7 +218,9 @@ class FlatGen(object):
             if x < 0.45 and models:
                 mid = r.choice(models)
                 y = r.random()
-                if y < 0.3:
+                if y < 0.1:
+                    ops.append(['call', mid, 'may_trigger', r.choice(events + [to_name(cfg, s) for s in cur] + [UNKNOWN])])
+                elif y < 0.3:
                     ops.append(['call', mid, 'trigger', r.choice(events + [to_name(cfg, s) for s in cur] + [UNKNOWN])])
                 elif y < 0.75:
                     ops.append(['call', mid, r.choice(events + [to_name(cfg, s) for s in cur]), None])
@@ -379,9 +387,16 @@ def kind_of(objs, mid, model, name, attr):
     return [8]
 
 
+_LOOP = [None]      # the event loop of the case being run (asyncio classes): every call is awaited to completion
+
+
 def res_of(f, *args):
     try:
         r = f(*args)
+        if inspect.isawaitable(r):
+            if _LOOP[0] is None:
+                _LOOP[0] = asyncio.new_event_loop()
+            r = _LOOP[0].run_until_complete(r)
     except Exception as e:    # noqa
         return [1, exn_code(e)]
     if r is True or r is False:
@@ -444,7 +459,10 @@ class FlatRunner(object):
                       model_override=self.cfg['over'], ignore_invalid_triggers=self.cfg['ignore'])
         if initial == 'initial':
             del kwargs['initial']          # the default
-        self.machine = tr.Machine(**kwargs)
+        cname = self.cfg.get('cls', 'Machine')
+        import flat
+        kwargs.update(flat.class_kwargs(cname))
+        self.machine = flat.get_class(cname)(**kwargs)
         for d in models:
             if all(d['id'] != i for i, _ in self.models):
                 self.models.append((d['id'], self.objs.get(d)))
@@ -513,7 +531,7 @@ class FlatRunner(object):
     def observe_model(self, mid, obj):
         m = self.machine
         cfg = self.cfg
-        names = sorted(n for n in dir(obj) if not n.startswith('__'))
+        names = sorted(n for n in dir(obj) if not n.startswith('__') and n not in GRAPH_ATTRS)
         table = [[sx_str(n), kind_of(self.objs, mid, obj, n, cfg['attr'])] for n in names]
         helpers = [[sx_str(n), self.call(obj, n)] for n, (_, kd) in zip(names, table) if kd == [2]]
         evs = list(m.events.keys()) + [UNKNOWN]
@@ -529,6 +547,9 @@ class FlatRunner(object):
     def observe(self):
         m = self.machine
         states = list(m.states.keys())
+        # the models first: every helper incl. may_<event>() / may_trigger(e) is called BEFORE the machine is
+        # asked for get_triggers / get_transitions (asking may_ must not change the machine's relation)
+        models_obs = [self.observe_model(i, o) for i, o in self.models]
         trig = [[sx_str(s), [sx_str(t) for t in m.get_triggers(self.st(s))]] for s in states]
         trig.append([sx_str('*'), [sx_str(t) for t in m.get_triggers(*[self.st(s) for s in states])]])
         trig.append([sx_str(UNKNOWN), [sx_str(t) for t in m.get_triggers(UNKNOWN)]])
@@ -537,18 +558,26 @@ class FlatRunner(object):
             res = m.get_transitions(t, self.st(s), self.st(d))
             qs.append([[sx_str(x.source), [] if x.dest is None else [sx_str(x.dest)]] for x in res])
         return [[sx_str(s) for s in states], [sx_str(e) for e in m.events.keys()],
-                [self.observe_model(i, o) for i, o in self.models], trig, qs]
+                models_obs, trig, qs]
 
     def run(self):
+        if _LOOP[0] is not None:
+            _LOOP[0].close()
+        _LOOP[0] = asyncio.new_event_loop() if 'Async' in self.cfg.get('cls', 'Machine') else None
         try:
-            self.construct()
-        except Exception as e:   # noqa
-            return [2, exn_code(e)]
-        out = [self.observe()]
-        for op in self.case['ops'][self.case['nctor']:]:
-            r = self.apply(op)
-            out.append([r, self.observe()])
-        return [1, out]
+            try:
+                self.construct()
+            except Exception as e:   # noqa
+                return [2, exn_code(e)]
+            out = [self.observe()]
+            for op in self.case['ops'][self.case['nctor']:]:
+                r = self.apply(op)
+                out.append([r, self.observe()])
+            return [1, out]
+        finally:
+            if _LOOP[0] is not None:
+                _LOOP[0].close()
+                _LOOP[0] = None
 
 
 def impl(case):
@@ -794,6 +823,7 @@ def stats(case, obs, dist):
         if cfg[k]:
             bump('cfg_' + k)
     bump('attr_' + cfg['attr'])
+    bump('cls_' + cfg.get('cls', 'Machine'))
     for op, st in zip(case['ops'][case['nctor']:], obs[1][1:]):
         bump('op_' + op[0])
         r = st[0]
